@@ -726,3 +726,110 @@ m('R1-numpy-partial-order', 'C20', 'R1', 'numpy._ravel_leaves/partial(_unravel_l
   """        functools.partial(_unravel_leaves, shapes, indices, from_dtypes, to_dtype),""")
 m('R2-torch-dtype-check-dropped', 'C20', 'R2', 'torch._unravel_leaves/dtype-guard', 'optree/integration/torch.py',
   """    if flat.dtype != to_dtype:""", """    if False and flat.dtype != to_dtype:""")
+
+
+# ---- rules that had no mutant of their own (added after the first full run) ---------------------
+m('E2-fields-decref-only-on-one-branch', 'C15', 'E2', 'IsNamedTupleClassImpl/_fields', 'include/optree/pytypes.h',
+  """            Py_DECREF(_fields);
+            if (fields_ok) [[likely]] {
+                // NOLINTNEXTLINE[readability-use-anyofallof]
+                for (PyObject* const name : {Py_Get_ID(_make), Py_Get_ID(_asdict)}) {""",
+  """            if (fields_ok) [[likely]] {
+                Py_DECREF(_fields);
+                // NOLINTNEXTLINE[readability-use-anyofallof]
+                for (PyObject* const name : {Py_Get_ID(_make), Py_Get_ID(_asdict)}) {""")
+m('E4-pickle-calls-python-while-filling', 'C15', 'E4', 'ToPickleable/node_states', 'src/treespec/serialization.cpp',
+  """                                    node.original_keys ? node.original_keys : py::none()));""",
+  """                                    node.original_keys
+                                        ? py::getattr(node.original_keys, Py_Get_ID(copy))()
+                                        : py::none()));""")
+m('F4-func-called-twice', 'C05', 'F4', 'tree_map_/func-used-once', 'optree/ops.py',
+  """    flat_args = [leaves] + [treespec.flatten_up_to(r) for r in rests]
+    deque(map(func, *flat_args), maxlen=0)  # consume and exhaust the iterable
+    return tree""",
+  """    flat_args = [leaves] + [treespec.flatten_up_to(r) for r in rests]
+    if leaves:
+        func(*(a[0] for a in flat_args))  # fail early on a wrong signature
+    deque(map(func, *flat_args), maxlen=0)  # consume and exhaust the iterable
+    return tree""")
+m('F8-jax-partial-hashes-function-object', 'C19', 'F8', 'jax.HashablePartial/eq-hash', 'optree/integration/jax.py',
+  """        return hash(
+            (
+                self.func.__code__,""",
+  """        return hash(
+            (
+                self.func,""")
+m('DC3-twice-check-after-dataclass', 'C19', 'DC3', 'dataclass/twice-rejected', 'optree/dataclasses.py',
+  """    if _FIELDS in cls.__dict__:
+        raise TypeError(
+            f'@{__name__}.dataclass() cannot be applied to {cls.__name__} more than once.',
+        )
+    if namespace is not GLOBAL_NAMESPACE and not isinstance(namespace, str):
+        raise TypeError(f'The namespace must be a string, got {namespace!r}.')
+    if namespace == '':
+        raise ValueError('The namespace cannot be an empty string.')
+
+    cls = dataclasses.dataclass(cls, **kwargs)  # type: ignore[assignment]""",
+  """    if namespace is not GLOBAL_NAMESPACE and not isinstance(namespace, str):
+        raise TypeError(f'The namespace must be a string, got {namespace!r}.')
+    if namespace == '':
+        raise ValueError('The namespace cannot be an empty string.')
+
+    cls = dataclasses.dataclass(cls, **kwargs)  # type: ignore[assignment]
+    if _FIELDS in cls.__dict__:
+        raise TypeError(
+            f'@{__name__}.dataclass() cannot be applied to {cls.__name__} more than once.',
+        )""")
+m('DC3-field-writes-into-callers-dict', 'C19', 'DC3', 'field/flag-written-to-a-copy', 'optree/dataclasses.py',
+  """    metadata = (metadata or {}).copy()""",
+  """    metadata = metadata if metadata is not None else {}""")
+m('L4-register-locks-per-variant', 'C17', 'L4', 'PyTreeTypeRegistry::Register/', 'src/registry.cpp',
+  """    const scoped_write_lock_guard lock{sm_mutex};
+
+    RegisterImpl<NONE_IS_NODE>(cls,
+                               flatten_func,
+                               unflatten_func,
+                               path_entry_type,
+                               registry_namespace);
+    RegisterImpl<NONE_IS_LEAF>(cls,""",
+  """    {
+        const scoped_write_lock_guard lock{sm_mutex};
+        RegisterImpl<NONE_IS_NODE>(cls,
+                                   flatten_func,
+                                   unflatten_func,
+                                   path_entry_type,
+                                   registry_namespace);
+    }
+    const scoped_write_lock_guard lock{sm_mutex};
+    RegisterImpl<NONE_IS_LEAF>(cls,""")
+m('R3-torch-loses-single-dtype-path', 'C20', 'R3', 'backends/same-ravel-structure', 'optree/integration/torch.py',
+  """    if all(dt == to_dtype for dt in from_dtypes):
+        # Skip any dtype conversion, resulting in a dtype-polymorphic `unravel`.
+        raveled = torch.cat([torch.ravel(leaf) for leaf in leaves])
+        return (
+            raveled,
+            functools.partial(_unravel_leaves_single_dtype, sizes, shapes),
+        )
+
+""", "")
+m('L2-lock-order-inversion', 'C17', 'L2', 'acyclic', 'include/optree/treespec.h',
+  """        const scoped_write_lock_guard lock{sm_is_dict_insertion_ordered_mutex};
+
+        if (mode) [[likely]] {""",
+  """        const scoped_write_lock_guard lock{sm_is_dict_insertion_ordered_mutex};
+
+        // "validate" the namespace against the registry while switching the mode
+        (void)PyTreeTypeRegistry::Lookup<false>(py::none(), registry_namespace);
+        if (mode) [[likely]] {""",
+  more=[('src/registry.cpp',
+         """    const scoped_read_lock_guard lock{sm_mutex};
+
+    PyTreeTypeRegistry* const registry = Singleton<NoneIsLeaf>();
+    if (!registry_namespace.empty()) [[unlikely]] {
+        const auto named_it =""",
+         """    const scoped_read_lock_guard lock{sm_mutex};
+
+    (void)PyTreeSpec::IsDictInsertionOrdered(registry_namespace);
+    PyTreeTypeRegistry* const registry = Singleton<NoneIsLeaf>();
+    if (!registry_namespace.empty()) [[unlikely]] {
+        const auto named_it =""")])
